@@ -76,6 +76,10 @@ def letters() -> dict:
         for d in ("13:000001", "13:000002"):
             L[f"RLY({d[-1]},{v})"] = (f"RP --- {d} {GWY} --:------ 0008 002 00{'C8' if v == 1 else '00'}", {(d, "relay_demand"): 1.0 if v == 1 else 0.0})
             L[f"ACT({d[-1]},{v})"] = (f" I --- {d} --:------ {d} 3EF0 003 00{'C8' if v == 1 else '00'}FF", {(d, "actuator_state.modulation_level"): 1.0 if v == 1 else 0.0})
+        # the controller's own domain demands (the system keeps these in per-domain tables of its own)
+        L[f"TCS_HD({v})"] = (f" I --- {CTL} --:------ {CTL} 3150 002 FC{'64' if v == 1 else '32'}", {("TCS", "heat_demands.FC"): 0.5 if v == 1 else 0.25, ("TCS", "heat_demand"): 0.5 if v == 1 else 0.25})
+        for dom in ("FC", "F9", "FA"):
+            L[f"TCS_RD({dom},{v})"] = (f" I --- {CTL} --:------ {CTL} 0008 002 {dom}{'C8' if v == 1 else '00'}", {("TCS", f"relay_demands.{dom}"): 1.0 if v == 1 else 0.0})
         # an underfloor-heating controller's own demands (not part of the history groups: expiry only)
         L[f"UFC_HD({v})"] = (f" I --- {UFC} --:------ {UFC} 3150 002 FC{'64' if v == 1 else '32'}", {(UFC, "heat_demand"): 0.5 if v == 1 else 0.25})
         L[f"UFC_RD({v})"] = (f" I --- {UFC} --:------ {UFC} 0008 002 FC{'64' if v == 1 else '32'}", {(UFC, "relay_demand"): 0.5 if v == 1 else 0.25})
@@ -90,7 +94,7 @@ GROUPS = {
     "temperature": lambda k: k.startswith(("T_rp", "T_arr")) or k in ("SP_rp(00,1)", "CFG_arr(00+01,2)", "TRV_T(00,2)"),
     "setpoint": lambda k: k.startswith(("SP_rp", "SP_arr", "MODE")) or k in ("T_arr(00+01+0B,1)", "TRV_SP(01,2)"),
     "config+window": lambda k: k.startswith(("CFG_rp", "CFG_arr", "WIN")),
-    "dhw+system": lambda k: k.startswith(("DHW", "SYS")) or k in ("T_rp(00,1)", "SP_arr(00+01,2)", "RLY(1,1)"),
+    "dhw+system": lambda k: k.startswith(("DHW", "SYS", "TCS_HD")) or k in ("TCS_RD(FC,1)", "TCS_RD(FA,2)") or k in ("T_rp(00,1)", "SP_arr(00+01,2)", "RLY(1,1)"),
     "devices": lambda k: k.startswith(("RLY", "ACT", "TRV")) or k in ("T_rp(00,2)", "SP_rp(01,1)"),
 }
 
@@ -283,6 +287,10 @@ ATTR_EXPIRY = [
     ("RLY(1,1)", ("13:000001", "relay_demand")),
     ("ACT(2,1)", ("13:000002", "actuator_state.modulation_level")),
     ("TRV_T(00,2)", ("04:000001", "temperature")),
+    ("TCS_HD(1)", ("TCS", "heat_demands.FC")),
+    ("TCS_HD(2)", ("TCS", "heat_demand")),
+    ("TCS_RD(F9,1)", ("TCS", "relay_demands.F9")),
+    ("TCS_RD(FA,1)", ("TCS", "relay_demands.FA")),
     ("UFC_HD(1)", (UFC, "heat_demand")),
     ("UFC_RD(2)", (UFC, "relay_demand")),
 ]
